@@ -73,13 +73,16 @@ TResult == /\ Consume("Result") /\ E.q \in Req
 \* Start after Shutdown: not documented, only recorded
 TRestart == /\ Consume("Restart") /\ srv = "stopped" /\ UNCHANGED vars
             /\ Mark
+\* the harness could not drive the world any further (last event of its segment)
+TAbort == /\ Consume("Abort") /\ UNCHANGED vars
+          /\ Mark
 TEnd == /\ Consume("End") /\ call \in {"none", "returned"} /\ UNCHANGED vars
         /\ Mark
 
 Silent == (ShutdownBegin \/ \E q \in Req : Accept(q)) /\ UNCHANGED l
 
 TraceNext == \/ TReset \/ TStart \/ TShutdownSync \/ TShutdownCall \/ TDeadline \/ TShutdownRet \/ TOverdue
-             \/ TBeginWitness \/ TSend \/ TEnter \/ TExit \/ TResult \/ TRestart \/ TEnd \/ Silent
+             \/ TBeginWitness \/ TSend \/ TEnter \/ TExit \/ TResult \/ TRestart \/ TEnd \/ TAbort \/ Silent
 TraceSpec == TraceInit /\ [][TraceNext]_tvars
 
 TraceAccepted ==
